@@ -36,6 +36,7 @@ def _cfg():
                      st.fixed_dictionaries({}, optional={"max_calc_step_size_feet": st.sampled_from([0.5, 1.0, 2.0]),
                                                          "cMinimumVelocity": st.sampled_from([0.0, 50.0, 400.0]),
                                                          "cMaximumDrop": st.sampled_from([-15000.0, -50.0, -5.0]),
+                                                         "cMinimumAltitude": st.sampled_from([-1410.748, -20.0, 500.0]),
                                                          "cGravityConstant": st.sampled_from([-32.17405, -30.0])}))
 
 
